@@ -153,10 +153,12 @@ def check_graph(tag: str, g: Graph, rp: dict, out: list, expect_fail: set = froz
 # ---------------------------------------------------------------- families
 def fam_binding():
     """child with k positional slots, every subset fed by inputs, 0-2 keyword statics"""
+    STATICS = ["sv", 7, None]  # a genuine static None must reach the callable like any other value
     for k in range(0, 4):
         for mask in range(1 << k):
             for nkw in range(3):
-                def build(k=k, mask=mask, nkw=nkw):
+              for rot in range(3 if k else 1):
+                def build(k=k, mask=mask, nkw=nkw, rot=rot):
                     parents = [Node(f"p{i}", payload=(functools.partial(term, f"p{i}"), [i], {})) for i in range(k)]
                     args, ins = [], {}
                     for i in range(k):
@@ -164,11 +166,11 @@ def fam_binding():
                             args.append(f"in{i}")
                             ins[f"in{i}"] = parents[i]
                         else:
-                            args.append([f"static{i}", i][i % 2])
-                    kwargs = {f"kw{j}": j * 10 for j in range(nkw)}
+                            args.append(STATICS[(i + rot) % 3])
+                    kwargs = {f"kw{j}": [j * 10, None][(j + rot) % 2] for j in range(nkw)}
                     c = Node("child", payload=(functools.partial(term, "child"), args, kwargs), **ins)
                     return Graph([c] + [p for i, p in enumerate(parents) if not mask >> i & 1])
-                yield f"binding k={k} mask={mask:b} kw={nkw}", {"family": "binding", "k": k, "mask": mask, "nkw": nkw}, build
+                yield f"binding k={k} mask={mask:b} kw={nkw} rot={rot}", {"family": "binding", "k": k, "mask": mask, "nkw": nkw, "rot": rot}, build
 
 
 def outnames(N, style):
